@@ -21,7 +21,15 @@ def handler(job):
     kw = dict(num_steps=job["n"], hom_deg=job["hom_deg"])
     if job.get("explicit", True):
         kw.update(start=job["start"], stop=job["stop"])
-    pla = PersLandscapeApprox(dgms=dgms, **kw)
+    if job.get("reconfigure") and job.get("explicit", True):
+        # built lazily for ANOTHER grid, then re-configured through its public attributes before the first computation: the values must be
+        # sampled on the grid the object reports
+        st = (job["stop"] - job["start"]) / max(1, job["n"] - 1)
+        pla = PersLandscapeApprox(dgms=dgms, num_steps=job["n"] + 3, hom_deg=job["hom_deg"], start=job["start"] - st, stop=job["stop"] + 2 * st, compute=False)
+        pla.start, pla.stop, pla.num_steps = job["start"], job["stop"], job["n"]
+        pla.compute_landscape()
+    else:
+        pla = PersLandscapeApprox(dgms=dgms, **kw)
     out["values"] = mat(pla.values)
     out["start"], out["stop"] = fl(pla.start), fl(pla.stop)
     if job.get("vec"):
